@@ -67,7 +67,7 @@ Section CountIfRun.
     - apply andb_prop in H. destruct H as [Ha Hc]. cbv zeta. rewrite (nvalue_lo l a Ha s s'), (nvalue_lo l c Hc s s'). reflexivity.
     - apply andb_prop in H. destruct H as [Ha Hc]. rewrite (seval_lo l a Ha s s'), (seval_lo l c Hc s s'). reflexivity.
     - apply andb_prop in H. destruct H as [H Hc]. apply andb_prop in H. destruct H as [He Ha].
-      rewrite (neval_lo l e He s s'), (neval_lo l a Ha s s'), (neval_lo l c Hc s s'). reflexivity.
+      cbv zeta. rewrite (neval_lo l e He s s'), (neval_lo l a Ha s s'), (neval_lo l c Hc s s'), (nvalue_lo l e He s s'), (nvalue_lo l a Ha s s'), (nvalue_lo l c Hc s s'). reflexivity.
     - rewrite (seval_lo l t H s s'). reflexivity.
     - rewrite (seval_lo l t H s s'). reflexivity.
     - rewrite (IH H s s'). reflexivity.
